@@ -82,6 +82,35 @@ pub enum Op {
     CsrC(u8),
     RootC(u8),
     AddNocC(u8),
+    /// the *settings alphabet*: write GroupKeyMap (group 0x101 -> key set 0x42) on fabric n
+    GroupMapC(u8),
+    /// Groups::AddGroup(0x101) on endpoint 0 by fabric n
+    AddGroupC(u8),
+    /// write the Binding list of endpoint 0 (fabric n's entries)
+    BindingC(u8),
+    /// write BasicInformation::NodeLabel
+    NodeLabelC(u8),
+    /// write UserLabel::LabelList of endpoint 0
+    UserLabelC(u8),
+}
+
+/// Node-level settings next to the fabric table: bindings (fabric-scoped entries of one registry),
+/// user labels, the node label.
+#[derive(Clone, Debug, PartialEq, Eq, Hash, Default)]
+pub struct Settings {
+    /// (fabric index, node, endpoint, cluster)
+    pub bindings: Vec<(u8, u64, u16, u32)>,
+    pub user_labels: Vec<(u16, String, String)>,
+    pub node_label: String,
+}
+
+fn settings_of(dev: &Device) -> Settings {
+    let mut bindings: Vec<(u8, u64, u16, u32)> = dev.bindings.get().verif_entries().iter().map(|b| (b.fab_idx.get(), b.node.unwrap_or(0), b.endpoint.unwrap_or(0xffff), b.cluster.unwrap_or(0xffff_ffff))).collect();
+    bindings.sort();
+    let mut user_labels = Vec::new();
+    dev.user_labels.get().verif_entries(|ep, l, v| user_labels.push((ep, l.to_string(), v.to_string())));
+    let node_label = dev.matter.get().with_state(|s| s.verif_basic_info().node_label.to_string());
+    Settings { bindings, user_labels, node_label }
 }
 
 #[derive(Clone, Debug, PartialEq, Eq, Hash)]
@@ -118,13 +147,26 @@ fn memory_config(m: &Matter<'_>) -> Vec<FabSummary> {
                 vid: (f.vendor_id(), digest(&f.vid_verification_statement().to_vec())),
                 root: digest(&f.root_ca().to_vec()),
                 noc: digest(&f.noc().to_vec()),
-                acl: f.acl_iter().map(|e| format!("{:?}", e)).collect(),
-                groups: format!("{:?}/{:?}", f.groups().key_set_iter().map(|k| (k.group_key_set_id, digest(&format!("{:?}", k)) % 100_000)).collect::<Vec<_>>(), f.groups().key_map_iter().map(|k| (k.group_id, k.group_key_set_id)).collect::<Vec<_>>()),
+                acl: f.acl_iter().map(|e| format!("{:?}/{}", e.auth_mode(), tlv_hex(e))).collect(),
+                groups: format!("{:?}/{:?}", f.groups().key_set_iter().map(|k| (k.group_key_set_id, digest(&tlv_hex(k)) % 100_000)).collect::<Vec<_>>(), f.groups().key_map_iter().map(|k| (k.group_id, k.group_key_set_id)).collect::<Vec<_>>()) + &{
+                    let t: Vec<_> = f.groups().iter().map(|g| (g.group_id, g.endpoints.to_vec(), g.group_name.to_string())).collect();
+                    if t.is_empty() { String::new() } else { format!("/{:?}", t) }
+                },
             })
             .collect();
         v.sort_by_key(|f| f.idx);
         v
     })
+}
+
+/// the TLV form of a value (its `Debug` form may hide content behind `MaybeUninit`)
+fn tlv_hex<T: rs_matter::tlv::ToTLV>(t: &T) -> String {
+    let mut buf = vec![0u8; 1024];
+    let mut wb = rs_matter::utils::storage::WriteBuf::new(&mut buf);
+    match t.to_tlv(&rs_matter::tlv::TLVTag::Anonymous, &mut wb) {
+        Ok(()) => common::hex(wb.as_slice()),
+        Err(e) => format!("unencodable:{:?}", e.code()),
+    }
 }
 
 fn persisted_config(kv: &RecKv) -> BTreeMap<u16, u64> {
@@ -191,6 +233,16 @@ struct World {
     pub c07: bool,
     pub c11: bool,
     pub c11_crash_points_checked: u64,
+    /// 0 = the classic alphabet, 1 = the settings alphabet (group / binding / label writes)
+    pub alphabet: u8,
+    /// C07: node id carried by a binding -> the fabric (index, root, fabric id) whose administrator wrote it
+    binding_of: BTreeMap<u64, (u8, u64, u64)>,
+    /// C07: fabrics (index, root, fabric id) whose administrator wrote group settings / an ACL
+    groups_written: std::collections::BTreeSet<(u8, u64, u64)>,
+    acl_written: std::collections::BTreeSet<(u8, u64, u64)>,
+    /// a settings write hit a failing store: the memory image of the node-level settings may be ahead of the store
+    settings_dirty: bool,
+    bindings_written: u64,
 }
 
 fn set_clock(m: &Matter<'_>) {
@@ -219,7 +271,7 @@ impl World {
             roots.push((kp, spec, cert));
         }
         let dev = commdrv::boot(&mut exec, &net, 1, &kv, 1000, true);
-        let mut w = World { exec, net, kv, dev: Some(dev), admin, admin_task: None, answer: Rc::new(RefCell::new(None)), roots, next_root: 0, last_csr_key: None, model: Model::default(), committed: Config::default(), boots: 1, violations: Vec::new(), case_sessions: Vec::new(), memory_dirty: false, dirty_fabs: Default::default(), arming_fabric_changed: None, limbo: None, pase_gen: 0, pase_dev_id: 0, incarnation: BTreeMap::new(), must_be_gone: Default::default(), resumption_of: BTreeMap::new(), subscribed: BTreeMap::new(), completed_now: false, removed_now: None, last_ok: false, c07: false, c11: false, c11_crash_points_checked: 0 };
+        let mut w = World { exec, net, kv, dev: Some(dev), admin, admin_task: None, answer: Rc::new(RefCell::new(None)), roots, next_root: 0, last_csr_key: None, model: Model::default(), committed: Config::default(), boots: 1, violations: Vec::new(), case_sessions: Vec::new(), memory_dirty: false, dirty_fabs: Default::default(), arming_fabric_changed: None, limbo: None, pase_gen: 0, pase_dev_id: 0, incarnation: BTreeMap::new(), must_be_gone: Default::default(), resumption_of: BTreeMap::new(), subscribed: BTreeMap::new(), completed_now: false, removed_now: None, last_ok: false, c07: false, c11: false, c11_crash_points_checked: 0, alphabet: 0, binding_of: BTreeMap::new(), groups_written: Default::default(), acl_written: Default::default(), settings_dirty: false, bindings_written: 0 };
         w.exec.run()?;
         w.after_boot()?;
         w.committed = w.config();
@@ -453,6 +505,28 @@ impl World {
             return v;
         }
         let fabs: Vec<u8> = memory_config(self.md()).iter().map(|f| f.idx).filter(|f| self.case_alive(*f)).collect();
+        if self.alphabet == 1 {
+            // the settings alphabet: what an administrator configures on a fabric, the ways a fail-safe
+            // begins and ends, fabric removal, and the commissioning of a further fabric over PASE
+            if self.pase_alive() {
+                v.extend([Op::ArmP, Op::Arm0P, Op::CsrP, Op::RootP, Op::AddNocP]);
+            }
+            let all: Vec<u8> = memory_config(self.md()).iter().map(|f| f.idx).collect();
+            for f in fabs {
+                v.extend([Op::ArmC(f), Op::Arm0C(f), Op::CompleteC(f), Op::AclC(f), Op::GroupKeyC(f), Op::GroupMapC(f), Op::AddGroupC(f)]);
+                if self.c07 || self.c11 {
+                    v.push(Op::BindingC(f));
+                }
+                if self.c11 {
+                    v.extend([Op::NodeLabelC(f), Op::UserLabelC(f)]);
+                }
+                for g in &all {
+                    v.push(Op::RemoveFabricC(f, *g));
+                }
+            }
+            v.extend([Op::Tick, Op::Restart, Op::FailNextStore, Op::FailSecondStore]);
+            return v;
+        }
         if self.pase_alive() {
             v.extend([Op::ArmP, Op::Arm0P, Op::CsrP, Op::RootP, Op::AddNocP, Op::CompleteP]);
         }
@@ -478,6 +552,7 @@ impl World {
 
     fn apply(&mut self, op: Op) -> Result<(), String> {
         let log_before = self.kv.log_len();
+        let dirty_before = self.settings_dirty || self.memory_dirty;
         let pre = self.model.clone();
         let pre_fabrics = if self.dev.as_ref().map(|d| d.boot_error.borrow().is_none()).unwrap_or(false) { memory_config(self.md()) } else { vec![] };
         self.completed_now = false;
@@ -514,7 +589,7 @@ impl World {
         }
         if self.c11 && r.is_ok() && !matches!(op, Op::Restart) {
             let log_after = self.kv.log_len();
-            self.c11_crash_points(op, log_before, log_after);
+            self.c11_crash_points(op, log_before, log_after, dirty_before);
         }
         r
     }
@@ -590,6 +665,33 @@ impl World {
                     Op::RevokeC(f) => (f, false, true, commdrv::revoke_commissioning()),
                     Op::RemoveFabricC(f, g) => (f, false, false, commdrv::remove_fabric(g)),
                     Op::GroupKeyC(f) => (f, false, false, commdrv::key_set_write(0x42)),
+                    Op::GroupMapC(f) => (f, true, false, commdrv::write_group_key_map(&[(0x0101, 0x42)])),
+                    Op::AddGroupC(f) => (f, false, false, commdrv::add_group(0x0101, "grp-\u{e9}")),
+                    Op::BindingC(f) => {
+                        // a target node id that names the incarnation of the fabric it is written for
+                        self.bindings_written += 1;
+                        let node = 0xB000_0000u64 + ((self.next_root as u64) << 12) + f as u64;
+                        let ident = memory_config(self.md()).iter().find(|x| x.idx == f).map(|x| (x.idx, x.root, x.fabric_id));
+                        if let Some(id) = ident {
+                            self.binding_of.insert(node, id);
+                        }
+                        // (a second write replaces the list by one of the same length with other targets)
+                        let has_first = self.dev.as_ref().map(settings_of).unwrap_or_default().bindings.iter().any(|b| b.0 == f && b.2 == 1);
+                        if has_first {
+                            (f, true, false, commdrv::write_binding(&[(node, 3, 6), (node, 4, 8)]))
+                        } else {
+                            (f, true, false, commdrv::write_binding(&[(node, 1, 6), (node, 2, 8)]))
+                        }
+                    }
+                    Op::NodeLabelC(f) => (f, true, false, commdrv::write_node_label(if self.md().with_state(|s| s.verif_basic_info().node_label.is_empty()) { "node-\u{fc}-label-0123456789-abcdefg" } else { "second" })),
+                    Op::UserLabelC(f) => {
+                        let has_first = self.dev.as_ref().map(settings_of).unwrap_or_default().user_labels.iter().any(|l| l.2 == "kitchen");
+                        if has_first {
+                            (f, true, false, commdrv::write_user_labels(&[("room", "cellar"), ("floor", "-1")]))
+                        } else {
+                            (f, true, false, commdrv::write_user_labels(&[("room", "kitchen"), ("floor", "\u{fc}ber-1")]))
+                        }
+                    }
                     _ => unreachable!(),
                 };
                 let ans = self.request(via, write, timed, req)?;
@@ -616,6 +718,16 @@ impl World {
                         }
                         self.next_root += 1;
                     }
+                    Op::GroupKeyC(f) | Op::GroupMapC(f) | Op::AddGroupC(f) | Op::AclC(f) => {
+                        // (also when refused: a refused write that hit a failing store may stay in memory)
+                        if let Some(id) = memory_config(self.md()).iter().find(|x| x.idx == f).map(|x| (x.idx, x.root, x.fabric_id)) {
+                            if matches!(op, Op::AclC(_)) {
+                                self.acl_written.insert(id);
+                            } else {
+                                self.groups_written.insert(id);
+                            }
+                        }
+                    }
                     Op::OpenWindowC(_) if succeeded(o) => {
                         self.model.window_open = true;
                         if !self.pase_alive() {
@@ -632,6 +744,11 @@ impl World {
             return Ok(());
         }
         let store_failed = self.kv.0.borrow().failures > store_failures_before;
+        if matches!(op, Op::Restart) {
+            self.settings_dirty = false;
+        } else if store_failed && matches!(op, Op::BindingC(_) | Op::NodeLabelC(_) | Op::UserLabelC(_) | Op::RemoveFabricC(..) | Op::Tick | Op::Arm0P | Op::Arm0C(_) | Op::RevokeC(_)) {
+            self.settings_dirty = true;
+        }
         if store_failed {
             // a command that hit a failing store was answered with a failure, but may have been taken
             // into account all the same: the order rules are judged from what the device recorded
@@ -661,7 +778,7 @@ impl World {
         // a change made by the administrator of a fabric that the pending commissioning does not
         // concern is an ordinary committed change of that fabric, armed fail-safe or not
         let touched = match op {
-            Op::AclC(f) | Op::LabelC(f) | Op::VidStmtC(f) | Op::GroupKeyC(f) => Some(f),
+            Op::AclC(f) | Op::LabelC(f) | Op::VidStmtC(f) | Op::GroupKeyC(f) | Op::GroupMapC(f) | Op::AddGroupC(f) => Some(f),
             Op::RemoveFabricC(_, g) => Some(g),
             _ => None,
         };
@@ -995,6 +1112,31 @@ impl World {
                 self.violations.push((format!("C07:subscription-{}:after-{}", b, op_class(op)), format!("after {:?} the device holds subscription {} of peer {:#x} on fabric index {} (made on {:?}); fabrics now {:?}", op, id, peer, fab, made_for, fabrics.iter().map(|f| (f.idx, f.fabric_id)).collect::<Vec<_>>())));
             }
         }
+        // bindings: every entry belongs to an existing fabric, the one whose administrator wrote it
+        let settings = self.dev.as_ref().map(settings_of).unwrap_or_default();
+        for (fab, node, _, _) in &settings.bindings {
+            let current = fabrics.iter().find(|f| f.idx == *fab);
+            let made_for = self.binding_of.get(node);
+            let bad = match (current, made_for) {
+                (None, _) => Some("outlives-its-fabric"),
+                (Some(f), _) if self.must_be_gone.contains(&(f.idx, f.root, f.fabric_id)) => Some("of-a-fabric-that-was-rolled-back-or-removed-still-there"),
+                (Some(f), Some((_, root, fid))) if f.root != *root || f.fabric_id != *fid => Some("of-a-removed-fabric-reaches-its-successor"),
+                _ => None,
+            };
+            if let Some(b) = bad {
+                self.violations.push((format!("C07:binding-{}:after-{}", b, op_class(op)), format!("after {:?} the device holds a binding to node {:#x} under fabric index {} (written for {:?}); fabrics now {:?}", op, node, fab, made_for, fabrics.iter().map(|f| (f.idx, f.fabric_id)).collect::<Vec<_>>())));
+            }
+        }
+        // group settings and access-control entries: a fabric has none that its own administrator did not write
+        for f in &fabrics {
+            let id = (f.idx, f.root, f.fabric_id);
+            if !f.groups.starts_with("[]/[]") && !self.groups_written.contains(&id) {
+                self.violations.push((format!("C07:group-settings-of-another-fabric-reach-this-one:after-{}", op_class(op)), format!("after {:?} fabric index {} (fabric id {:#x}) has group settings {} although its administrator never wrote any", op, f.idx, f.fabric_id, f.groups)));
+            }
+            if f.acl.len() > 1 && !self.acl_written.contains(&id) {
+                self.violations.push((format!("C07:access-control-entries-of-another-fabric-reach-this-one:after-{}", op_class(op)), format!("after {:?} fabric index {} (fabric id {:#x}) has {} access-control entries although its administrator wrote none beyond the one AddNOC creates: {:?}", op, f.idx, f.fabric_id, f.acl.len(), f.acl)));
+            }
+        }
         // sessions of other fabrics are unaffected by a removal
         if let Op::RemoveFabricC(f, g) = op {
             if f != g && self.case_sessions.contains(&f) && fabrics.iter().any(|x| x.idx == f) && !self.case_alive(f) {
@@ -1007,6 +1149,11 @@ impl World {
 
 /// Boot a throw-away device from this key-value content: its fabrics, or why it did not start.
 fn boot_config(map: &BTreeMap<u16, Vec<u8>>) -> Result<Vec<FabSummary>, String> {
+    boot_config_full(map).map(|x| x.0)
+}
+
+/// ... and its node-level settings (bindings, user labels, node label)
+fn boot_config_full(map: &BTreeMap<u16, Vec<u8>>) -> Result<(Vec<FabSummary>, Settings), String> {
     let saved = (vclock::now(),);
     let mut exec = Exec::new();
     let net = Net::new(2);
@@ -1015,7 +1162,7 @@ fn boot_config(map: &BTreeMap<u16, Vec<u8>>) -> Result<Vec<FabSummary>, String> 
     exec.run()?;
     let r = match dev.boot_error.borrow().clone() {
         Some(e) => Err(e),
-        None => Ok(memory_config(dev.matter.get())),
+        None => Ok((memory_config(dev.matter.get()), settings_of(&dev))),
     };
     exec.cancel(dev.task);
     drop(exec);
@@ -1026,25 +1173,36 @@ fn boot_config(map: &BTreeMap<u16, Vec<u8>>) -> Result<Vec<FabSummary>, String> 
 
 impl World {
     /// C11: a crash between the store operations of `op` (the log grew from `before` to `after`).
-    fn c11_crash_points(&mut self, op: Op, before: usize, after: usize) {
+    fn c11_crash_points(&mut self, op: Op, before: usize, after: usize, dirty_before: bool) {
         if after <= before {
             return;
         }
         let log: Vec<crate::common::kv::KvOp> = self.kv.0.borrow().log.clone();
         let empty = BTreeMap::new();
-        let cfg_before = boot_config(&RecKv::map_at(&empty, &log, before));
-        let cfg_after = boot_config(&RecKv::map_at(&empty, &log, after));
+        let cfg_before = boot_config_full(&RecKv::map_at(&empty, &log, before));
+        let cfg_after = boot_config_full(&RecKv::map_at(&empty, &log, after));
         for (n, c) in [(before, &cfg_before), (after, &cfg_after)] {
             if let Err(e) = c {
                 self.violations.push((format!("C11:node-does-not-start-from-its-own-store:after-{}", op_class(op)), format!("restarting from the store as it was {} {:?} ({} store operations): {}", if n == before { "before" } else { "after" }, op, n, e)));
             }
         }
         for n in before + 1..after {
-            match boot_config(&RecKv::map_at(&empty, &log, n)) {
+            match boot_config_full(&RecKv::map_at(&empty, &log, n)) {
                 Err(e) => self.violations.push((format!("C11:crash-point-prevents-start-up:during-{}", op_class(op)), format!("a crash after {} of the {} store operations of {:?} leaves a store the node cannot start from: {}", n - before, after - before, op, e))),
                 Ok(c) => {
-                    if Ok(&c) != cfg_before.as_ref() && Ok(&c) != cfg_after.as_ref() {
-                        self.violations.push((format!("C11:crash-point-leaves-a-torn-configuration:during-{}", op_class(op)), format!("a crash after {} of the {} store operations of {:?} comes up with {:?}, which is neither the configuration before ({:?}) nor after ({:?})", n - before, after - before, op, c.iter().map(|f| (f.idx, f.fabric_id, &f.label, f.acl.len())).collect::<Vec<_>>(), cfg_before.as_ref().map(|v| v.len()), cfg_after.as_ref().map(|v| v.len()))));
+                    // (when a refused write is still in memory - its store failed - the operation's own store calls
+                    // flush it too: the parts of the configuration are then judged one by one)
+                    let part_ok = |pick: &dyn Fn(&(Vec<FabSummary>, Settings)) -> String| -> bool {
+                        let x = pick(&c);
+                        cfg_before.as_ref().map(|b| pick(b) == x).unwrap_or(false) || cfg_after.as_ref().map(|a| pick(a) == x).unwrap_or(false)
+                    };
+                    let by_parts = dirty_before
+                        && part_ok(&|v| format!("{:?}", v.0))
+                        && part_ok(&|v| format!("{:?}", v.1.user_labels))
+                        && part_ok(&|v| v.1.node_label.clone())
+                        && (1..=4u8).all(|i| part_ok(&|v| format!("{:?}", v.1.bindings.iter().filter(|b| b.0 == i && c.0.iter().any(|f| f.idx == i)).collect::<Vec<_>>())));
+                    if Ok(&c) != cfg_before.as_ref() && Ok(&c) != cfg_after.as_ref() && !by_parts {
+                        self.violations.push((format!("C11:crash-point-leaves-a-torn-configuration:during-{}", op_class(op)), format!("a crash after {} of the {} store operations of {:?} comes up with {:?} / {:?}, which is neither the configuration before ({:?}) nor after ({:?})", n - before, after - before, op, c.0.iter().map(|f| (f.idx, f.fabric_id, &f.label, f.acl.len(), &f.groups)).collect::<Vec<_>>(), c.1, cfg_before.as_ref().map(|v| (v.0.iter().map(|f| (f.idx, f.fabric_id)).collect::<Vec<_>>(), &v.1)), cfg_after.as_ref().map(|v| (v.0.iter().map(|f| (f.idx, f.fabric_id)).collect::<Vec<_>>(), &v.1)))));
                     }
                 }
             }
@@ -1062,6 +1220,21 @@ impl World {
         let map = self.kv.map();
         let armed = self.md().with_state(|s| s.verif_failsafe().verif_state().0.is_some());
         // what was written reads back equal
+        if !self.memory_dirty && !self.settings_dirty {
+            // the node-level settings are written through at once, fail-safe or not
+            match boot_config_full(&map) {
+                Err(e) => self.violations.push(("C11:node-does-not-start-from-its-own-store".into(), e)),
+                Ok((fabs, st)) => {
+                    let mut now = self.dev.as_ref().map(settings_of).unwrap_or_default();
+                    // (a binding of a fabric that is only pending in memory goes with that fabric: nothing of an
+                    // uncommitted change comes back)
+                    now.bindings.retain(|b| fabs.iter().any(|f| f.idx == b.0));
+                    if st != now {
+                        self.violations.push(("C11:persisted-settings-do-not-read-back-equal".into(), format!("in memory {:?}, after a restart {:?}", now, st)));
+                    }
+                }
+            }
+        }
         if !armed && !self.memory_dirty {
             match boot_config(&map) {
                 Err(e) => self.violations.push(("C11:node-does-not-start-from-its-own-store".into(), e)),
@@ -1148,16 +1321,26 @@ fn execute(history: &[Op]) -> Result<(u64, Vec<(String, String)>, Vec<Op>), Stri
 
 /// `c07`: judge C07 (and report only its violations) instead of C08
 pub fn execute_mode(history: &[Op], mode: u8) -> Result<(u64, Vec<(String, String)>, Vec<Op>), String> {
+    // bit 7 of the mode selects the settings alphabet for the operations that follow this history
+    let alphabet = mode >> 7;
+    let mode = mode & 0x7f;
     let c07 = mode == 7;
     let mut w = World::new()?;
     w.c07 = c07;
     w.c11 = mode == 11;
     for op in history {
-        if !w.enabled().contains(op) {
+        // (a history may mix the two alphabets: a root reached with the classic one, explored with the other)
+        let mut ok = false;
+        for a in [0u8, 1] {
+            w.alphabet = a;
+            ok = ok || w.enabled().contains(op);
+        }
+        if !ok {
             return Err(format!("history step {:?} is not enabled", op));
         }
         w.apply(*op)?;
     }
+    w.alphabet = alphabet;
     if w.dev.as_ref().map(|d| d.boot_error.borrow().is_some()).unwrap_or(true) {
         let prefix = match mode {
             7 => "C07:",
@@ -1172,8 +1355,11 @@ pub fn execute_mode(history: &[Op], mode: u8) -> Result<(u64, Vec<(String, Strin
         v.sort();
         v
     });
-    let key = digest(&(w.config(), w.committed.clone(), w.model.clone(), fs.0.map(|x| (x.0, x.1)), fs.2, sessions, w.last_csr_key.is_some(), w.next_root, w.kv.0.borrow().fail_attempt.is_some(), w.md().comm_window_state().is_open(), w.memory_dirty, (w.must_be_gone.clone(), w.limbo, w.arming_fabric_changed, w.dirty_fabs.clone())));
+    let key = digest(&(w.config(), w.committed.clone(), w.model.clone(), fs.0.map(|x| (x.0, x.1)), fs.2, sessions, w.last_csr_key.is_some(), w.next_root, w.kv.0.borrow().fail_attempt.is_some(), w.md().comm_window_state().is_open(), w.memory_dirty, ((w.must_be_gone.clone(), w.limbo, w.arming_fabric_changed, w.dirty_fabs.clone()), (w.dev.as_ref().map(settings_of), w.settings_dirty, w.kv.map().get(&rs_matter::persist::BINDINGS_KEY).map(|v| digest(v)), w.kv.map().get(&rs_matter::persist::USER_LABELS_KEY).map(|v| digest(v)), w.groups_written.clone(), w.acl_written.clone()))));
     let en = w.enabled();
+    if std::env::var_os("MC_SHOW_PANICS").is_some() {
+        eprintln!("final configuration: {:?}\n settings: {:?}\n last request ok: {}", w.config().fabrics.iter().map(|f| (f.idx, f.fabric_id, &f.label, &f.acl, &f.groups)).collect::<Vec<_>>(), w.dev.as_ref().map(settings_of), w.last_ok);
+    }
     if w.c11 {
         w.c11_final();
     }
@@ -1198,7 +1384,7 @@ pub fn bfs(prefix: Vec<Op>, depth: usize, cap: usize, mode: u8) -> Result<Bfs, S
     use rayon::prelude::*;
     let run = |h: &Vec<Op>| match common::catch(|| execute_mode(h, mode)) {
         Ok(r) => r,
-        Err(p) => Ok((digest(&("panic", h.clone())), vec![(format!("C{:02}:panic:{}", mode, p.class()), p.to_string())], vec![])),
+        Err(p) => Ok((digest(&("panic", h.clone())), vec![(format!("C{:02}:panic:{}", mode & 0x7f, p.class()), p.to_string())], vec![])),
     };
     let (k0, v0, en0) = run(&prefix)?;
     let mut out = Bfs { states: 1, transitions: 0, violations: v0.into_iter().map(|(s, w)| (prefix.clone(), s, w)).collect(), capped: false };
@@ -1241,6 +1427,29 @@ pub fn bfs(prefix: Vec<Op>, depth: usize, cap: usize, mode: u8) -> Result<Bfs, S
     Ok(out)
 }
 
+/// Roots of the exploration with the settings alphabet: (name, history, depth class 0 = full / 1 = reduced)
+pub fn settings_roots(with_bindings: bool) -> Vec<(&'static str, Vec<Op>, u8)> {
+    let mut v = Vec::new();
+    v.push(("settings:one-fabric-commissioned", honest_prefix(), 0));
+    let mut keyed = honest_prefix();
+    keyed.extend([Op::GroupKeyC(1), Op::GroupMapC(1)]);
+    v.push(("settings:key-set-and-group-key-map-written", keyed.clone(), 0));
+    let mut full = keyed.clone();
+    full.push(Op::AddGroupC(1));
+    if with_bindings {
+        full.push(Op::BindingC(1));
+    }
+    full.extend([Op::AclC(1), Op::OpenWindowC(1), Op::ArmP, Op::CsrP, Op::RootP]);
+    v.push(("settings:all-written-and-the-next-commissioning-prepared", full, 1));
+    v.push(("settings:first-fabric-pending-under-the-fail-safe", vec![Op::ArmP, Op::CsrP, Op::RootP, Op::AddNocP], 1));
+    if with_bindings {
+        let mut two = honest_prefix();
+        two.extend([Op::OpenWindowC(1), Op::ArmP, Op::CsrP, Op::RootP, Op::AddNocP, Op::CompleteC(2), Op::BindingC(1), Op::BindingC(2)]);
+        v.push(("settings:two-fabrics-with-bindings", two, 1));
+    }
+    v
+}
+
 pub fn honest_prefix() -> Vec<Op> {
     vec![Op::ArmP, Op::CsrP, Op::RootP, Op::AddNocP, Op::CompleteC(1)]
 }
@@ -1258,7 +1467,7 @@ pub fn parse_op(s: &str) -> Option<Op> {
                 return Some(Op::RemoveFabricC(f, g));
             }
         }
-        for o in [Op::ArmC(f), Op::Arm0C(f), Op::CsrUpdC(f), Op::UpdNocC(f), Op::AclC(f), Op::LabelC(f), Op::VidStmtC(f), Op::CompleteC(f), Op::OpenWindowC(f), Op::RevokeC(f), Op::GroupKeyC(f), Op::CsrC(f), Op::RootC(f), Op::AddNocC(f)] {
+        for o in [Op::ArmC(f), Op::Arm0C(f), Op::CsrUpdC(f), Op::UpdNocC(f), Op::AclC(f), Op::LabelC(f), Op::VidStmtC(f), Op::CompleteC(f), Op::OpenWindowC(f), Op::RevokeC(f), Op::GroupKeyC(f), Op::CsrC(f), Op::RootC(f), Op::AddNocC(f), Op::GroupMapC(f), Op::AddGroupC(f), Op::BindingC(f), Op::NodeLabelC(f), Op::UserLabelC(f)] {
             if format!("{:?}", o) == s {
                 return Some(o);
             }
@@ -1312,6 +1521,23 @@ pub fn run_check(ctx: &Ctx) -> i32 {
         total_transitions += r.transitions;
         per_root.push(json!({"root": name, "states": r.states, "transitions": r.transitions, "depth": d, "capped": r.capped}));
     }
+    let (sd0, sd1) = if ctx.tier == Tier::Quick { (5, 4) } else { (7, 6) };
+    for (name, prefix, class) in settings_roots(false) {
+        let d = if class == 0 { sd0 } else { sd1 };
+        let r = match bfs(prefix.clone(), d, if ctx.tier == Tier::Quick { 6_000 } else { 400_000 }, 8 | 0x80) {
+            Ok(r) => r,
+            Err(e) => {
+                eprintln!("MACHINERY: {}", e);
+                return 2;
+            }
+        };
+        for (h, sig, what) in r.violations {
+            report.violation(sig, format!("history {:?}: {}", h, what), json!({"history": h.iter().map(|o| format!("{:?}", o)).collect::<Vec<_>>()}));
+        }
+        total_states += r.states;
+        total_transitions += r.transitions;
+        per_root.push(json!({"root": name, "states": r.states, "transitions": r.transitions, "depth": d, "capped": r.capped}));
+    }
     let mut ev = Evidence::new("model_checking");
     ev.set("states", json!(total_states))
         .set("transitions", json!(total_transitions))
@@ -1320,7 +1546,7 @@ pub fn run_check(ctx: &Ctx) -> i32 {
         .set("depth", json!(depth))
         .set("roots", Value::Array(per_root))
         .set("samples", json!([{"history": honest_prefix().iter().map(|o| format!("{:?}", o)).collect::<Vec<_>>()}]))
-        .set("rule", json!(format!("every history of at most {} operations over the alphabet (ArmFailSafe 60 s / 0 s over PASE / CASE, CSRRequest add / update, AddTrustedRootCertificate, AddNOC, UpdateNOC, ACL write, UpdateFabricLabel, CommissioningComplete right / wrong context, OpenBasicCommissioningWindow, RevokeCommissioning, 61 s pass, restart, next store operation fails), from a factory-fresh node and from a node with one commissioned fabric, and two operations fewer from the middle of a commissioning (NOC added / NOC updated, not completed); the alphabet also has SetVIDVerificationStatement, RemoveFabric and a group key set write; states deduplicated on (configuration in memory, persisted blobs, committed configuration, fail-safe state, sessions, harness bookkeeping)", depth)));
+        .set("rule", json!(format!("every history of at most {} operations over the alphabet (ArmFailSafe 60 s / 0 s over PASE / CASE, CSRRequest add / update, AddTrustedRootCertificate, AddNOC, UpdateNOC, ACL write, UpdateFabricLabel, CommissioningComplete right / wrong context, OpenBasicCommissioningWindow, RevokeCommissioning, 61 s pass, restart, next store operation fails), from a factory-fresh node and from a node with one commissioned fabric, and two operations fewer from the middle of a commissioning (NOC added / NOC updated, not completed); the alphabet also has SetVIDVerificationStatement, RemoveFabric and a group key set write; a second exploration with the settings alphabet (ArmFailSafe 60 s / 0 s, CommissioningComplete, ACL write, KeySetWrite, GroupKeyMap write, Groups::AddGroup, RemoveFabric, the credential commands over PASE, 61 s pass, restart, store failures) from a commissioned fabric, from one with a key set and key map, from one with all settings written and a further commissioning prepared, and from a first fabric pending under the fail-safe (the group settings of a fabric are part of what commits / rolls back with it); states deduplicated on (configuration in memory, persisted blobs, committed configuration, fail-safe state, sessions, harness bookkeeping)", depth)));
     ev.assume("operational sessions are set up by the harness (pre-established keys) right after AddNOC and after a restart; CASE itself is C01's subject");
     ev.assume("network credentials: the Ethernet build has none to add; the persisted networks blob is part of the compared configuration");
     if report.violations.is_empty() && (total_states < 20) {
